@@ -8,6 +8,9 @@ import OV.Drivers.Loop
   `param` = eight fields name, `I` or `A`, attribute type, `R` (required), `V` (variadic), `P` (positional-or-keyword),
   annotation category (`missing`, `base:int`, `seqOf:int`, `otherOrigin`, `otherPlain`), `D` (python default))
 * `C16 rowk <same arguments as row>` → `ok` | reasons why the row is outside `bindsOkK` (`kReasons`)
+* `C16 dflt <mode> P <aarg>* K <aarg>* S <param>* D <dval>* E <dval>*` → `ok` | `shape` | disagreeing (argument, parameter) pairs
+  `i:j,…` (`dval` = `a` absent, `n` None, `o` opaque, `bT`/`bF`, `q<num>_<den>`, `s<codes>` / `s-`, `l<num>_<den>;…` / `l-`;
+  the `D` list is parallel to the positional ++ keyword-only arguments, the `E` list to the parameters)
 * `C16 accepts <mode> <param> <aarg>` → `true` | `false`
 * `C16 bind <scripted|traced> <npos> <kw,kw|-> S <param>*` → `ok <slot>,<slot>…` (`p<i>` | `k:<name>` | `-`) | `err:<kind>`
 * `C16 name <codes>` → `true` | `false`
@@ -55,6 +58,29 @@ def parseParam (t : String) : Option OParam :=
     let an ← parseAnnot an
     pure ⟨n, i == "I", a, r == "R", v == "V", p == "P", an, d == "D"⟩
   | _ => none
+
+def parseFrac (t : String) : Option (Int × Nat) :=
+  match t.splitOn "_" with
+  | [n, d] => do
+    let n ← n.toInt?
+    let d ← d.toNat?
+    pure (n, d)
+  | _ => none
+
+def parseDVal (t : String) : Option DVal :=
+  if t == "a" then some .absent
+  else if t == "n" then some .none
+  else if t == "o" then some .opaque
+  else if t == "bT" then some (.bool true)
+  else if t == "bF" then some (.bool false)
+  else if t.startsWith "q" then (parseFrac (t.drop 1).toString).map (fun nd => .num nd.1 nd.2)
+  else if t.startsWith "s" then
+    let r := (t.drop 1).toString
+    if r == "-" then some (.str []) else ((r.splitOn ",").mapM (fun (x : String) => x.toNat?)).map .str
+  else if t.startsWith "l" then
+    let r := (t.drop 1).toString
+    if r == "-" then some (.nums []) else ((r.splitOn ";").mapM parseFrac).map .nums
+  else none
 
 def parseMode : String → Option Mode
   | "scripted" => some .scripted | "traced" => some .traced | _ => none
@@ -110,7 +136,7 @@ def handle (args : List String) : String :=
      | some cs, some m, some r, some fc, some (ps, ks, ss) =>
        (match ps.mapM parseAArg, ks.mapM parseAArg, ss.mapM parseParam with
         | some ps, some ks, some ss =>
-          let e : Entry := ⟨cs, cx == "1", m, r, ⟨ps, ks⟩, ss, fc⟩
+          let e : Entry := ⟨cs, cx == "1", m, r, ⟨ps, ks⟩, ss, fc, [], []⟩
           if e.defects.isEmpty then "ok" else ",".intercalate (e.defects.map showDefect)
         | _, _, _ => "bad-op")
      | _, _, _, _, _ => "bad-op")
@@ -123,6 +149,29 @@ def handle (args : List String) : String :=
           if rs.isEmpty then "ok" else ",".intercalate (rs.map (fun r => match r with
             | .ruleFails => "ruleFails" | .posName => "posName" | .requiredOwn => "requiredOwn" | .dupNames => "dupNames"))
         | _, _, _ => "bad-op")
+     | _, _ => "bad-op")
+  | "dflt" :: m :: rest =>
+    -- <mode> P a* K b* S c* D d* E e*
+    (match parseMode m, sections rest with
+     | some m, some (ps, ks, tl) =>
+       let ss := tl.takeWhile (· ≠ "D")
+       (match tl.dropWhile (· ≠ "D") with
+        | "D" :: r2 =>
+          let ds := r2.takeWhile (· ≠ "E")
+          (match r2.dropWhile (· ≠ "E") with
+           | "E" :: es =>
+             (match ps.mapM parseAArg, ks.mapM parseAArg, ss.mapM parseParam, ds.mapM parseDVal, es.mapM parseDVal with
+              | some ps, some ks, some ss, some ds, some es0 =>
+                if !defaultsShapeOk ⟨ps, ks⟩ ss ds es0 then "shape"
+                else
+                  let es := effDefaults m ss es0
+                  let bad := defaultsBad ⟨ps, ks⟩ ss ds es
+                  if bad.isEmpty && defaultsOk ⟨ps, ks⟩ ss ds es then "ok"
+                  else if bad.isEmpty || defaultsOk ⟨ps, ks⟩ ss ds es then "inconsistent"
+                  else ",".intercalate (bad.map (fun ij => s!"{ij.1}:{ij.2}"))
+              | _, _, _, _, _ => "bad-op")
+           | _ => "bad-op")
+        | _ => "bad-op")
      | _, _ => "bad-op")
   | ["accepts", m, prm, arg] =>
     (match parseMode m, parseParam prm, parseAArg arg with
